@@ -141,6 +141,7 @@ class Runner:
         cache.time = self.clock
         registry.time = _RegClock(self.clock)
         self.spec_given = []     # spec_given[n]: the spec the preparer's n-th invocation received
+        self.background = []     # background[n]: the n-th invocation was made by a background re-preparer task
         self.log = []            # preparer invocations: [cls, name], oldest first
         self.made = {}           # id(object the preparer produced) -> ("ok"|"err", n)
         self.keep = []           # keep those objects alive so ids stay unique
@@ -165,7 +166,15 @@ class Runner:
                     self.contract = self.contract or "preparer got a different name than the one offered"
             mode = spec.get("mode") if isinstance(spec, dict) else None
             self.spec_given.append(copy.deepcopy(spec))
+            try:       # koreo.cache names its re-prepare monitor tasks "<Kind qualname>:<name>"
+                tname = asyncio.current_task().get_name()
+            except Exception:  # noqa: BLE001
+                tname = ""
+            self.background.append(tname == f"{KCLS[cls].__qualname__}:{cache_key}")
             deps = spec.get("deps") if isinstance(spec, dict) else None
+            if isinstance(spec, dict) and spec.get("sleep"):
+                for _ in range(spec["sleep"]):       # (concurrent streams) a preparer that suspends: other
+                    await asyncio.sleep(0)           # operations and background tasks run meanwhile
             if isinstance(spec, dict):
                 spec["scribble"] = n            # a preparer may mutate ITS copy (the tests' preparers do)
             R = self.result
@@ -193,7 +202,10 @@ class Runner:
         return [got[0], got[1]] if got else ["other", repr(obj)[:40]]
 
     def entry(self, e):
-        return {"spec": e.spec, "value": self.ident(e.resource), "version": e.resource_version,
+        ver = e.resource_version
+        if not isinstance(ver, str):          # the cache must be keyed by the resourceVersion STRING it was given
+            ver = f"<{type(ver).__name__} {ver!r}>"
+        return {"spec": e.spec, "value": self.ident(e.resource), "version": ver,
                 "at": int(e.prepared_at), "sys": e.system_data}
 
     def observe(self):
@@ -509,17 +521,23 @@ def meta(name, ver, **extra):
     return m
 
 
+def kmeta(name, ver):
+    """full Kubernetes-style metadata; the generation stays 1 while the resourceVersion moves (as after a label edit)"""
+    return meta(name, ver, namespace="default", uid="0b5f3c1e-8a45-4d0b-9c57-1f1f4a1f9a10", generation=1,
+                creationTimestamp="2025-01-17T08:30:12Z", labels={"app.kubernetes.io/name": "x"}, annotations={})
+
+
 def alphabet():
     return [
-        ["offer", 0, meta("ab", "17"), {"mode": "ok"}, None],
-        ["offer", 0, meta("ab", "170"), {"mode": "permfail"}, {"owner": "x"}],
+        ["offer", 0, kmeta("ab", "17"), {"mode": "ok"}, None],
+        ["offer", 0, kmeta("ab", "170"), {"mode": "permfail"}, {"owner": "x"}],
         ["offer", 0, meta("ab", "17"), {"mode": "retry", "n": 1}, None],
         ["offer", 0, meta("abc", "17"), {"mode": "ok_list"}, None],
         ["offer", 1, meta("ab", "170"), {"mode": "raise"}, None],
         ["delete", 0, "ab", None],
         ["delete", 0, "ab", "17"],
         ["delete", 0, "ab", "170"],
-        ["delres", 0, meta("ab", "17")],
+        ["delres", 0, kmeta("ab", "17")],
         ["lookupsys", 0, "ab"],
         ["offer", 2, meta("ab", "17"), {"mode": "ok"}, None],         # kinds 2 and 3: distinct classes, same class name
         ["offer", 3, meta("ab", "17"), {"mode": "ok"}, None],
@@ -527,16 +545,66 @@ def alphabet():
     ]
 
 
-def rand_meta(rng, name, ver):
+def k8s_extras(rng, m, gen=None):
+    """Dress `m` up as real Kubernetes object metadata.  None of these fields may influence the cache: only
+    name and resourceVersion do.  `gen`: the generation to use (None = leave it out)."""
+    if rng.random() < 0.6:
+        m["namespace"] = rng.choice(["default", "ns", "koreo-system"])
+    if rng.random() < 0.6:
+        m["uid"] = rng.choice(["0b5f3c1e-8a45-4d0b-9c57-1f1f4a1f9a10", "7d9c2a60-21aa-4c3e-b1a2-5e0d7a9e1c33"])
+    if gen is not None:
+        m["generation"] = gen
+    if rng.random() < 0.5:
+        m["creationTimestamp"] = rng.choice(["2024-05-01T10:00:00Z", "2025-01-17T08:30:12Z"])
+    if rng.random() < 0.4:
+        m["annotations"] = rng.choice([{}, {"kubectl.kubernetes.io/last-applied-configuration": "{}"},
+                                       {"koreo.dev/note": "17"}])
+    if rng.random() < 0.3:
+        m["managedFields"] = [{"manager": "kubectl", "operation": "Apply", "apiVersion": "koreo.dev/v1beta1",
+                               "time": "2025-01-17T08:30:12Z", "fieldsType": "FieldsV1",
+                               "fieldsV1": {"f:spec": {}}}]
+    if rng.random() < 0.2:
+        m["finalizers"] = ["koreo.dev/cleanup"]
+    if rng.random() < 0.2:
+        m["ownerReferences"] = [{"apiVersion": "v1", "kind": "ConfigMap", "name": "owner", "uid": "u-1"}]
+    return m
+
+
+class Generations:
+    """how an object's metadata.generation evolves from event to event, per (kind, name): absent, constant
+    (label / annotation / status updates bump only resourceVersion), increasing, or restarting at 1 (delete and
+    re-create)"""
+
+    def __init__(self, rng):
+        self.rng, self.mode, self.last = rng, {}, {}
+
+    def next(self, key):
+        mode = self.mode.setdefault(key, self.rng.choice(["absent", "const", "const", "inc", "restart", "mixed"]))
+        if mode == "absent":
+            return None
+        last = self.last.get(key, 0)
+        if mode == "const":
+            g = last or self.rng.choice([1, 1, 3])
+        elif mode == "inc":
+            g = last + 1
+        elif mode == "restart":
+            g = 1
+        else:
+            g = self.rng.choice([None, max(last, 1), last + 1, 1])
+        if g is not None:
+            self.last[key] = g
+        return g
+
+
+def rand_meta(rng, name, ver, gen=None):
     x = rng.random()
     from koreo.constants import ACTIVE_LABEL
     if x < 0.80:
         m = meta(name, ver)
-        if rng.random() < 0.2:
-            m["labels"] = rng.choice([{}, {ACTIVE_LABEL: "false"}, {"other": "x"}, {ACTIVE_LABEL: "TRUE"}])
-        if rng.random() < 0.1:
-            m["namespace"] = "ns"
-        return m
+        if rng.random() < 0.3:
+            m["labels"] = rng.choice([{}, {ACTIVE_LABEL: "false"}, {"other": "x"}, {ACTIVE_LABEL: "TRUE"},
+                                      {"app.kubernetes.io/name": "x", ACTIVE_LABEL: "true"}])
+        return k8s_extras(rng, m, gen)
     if x < 0.84:
         return {"resourceVersion": ver}
     if x < 0.88:
@@ -563,6 +631,7 @@ def rand_spec(rng):
 def rand_history(rng, length, nkeys):
     names = NAMES[:nkeys]
     vers = rng.sample(ALL_VERSIONS, 3)      # a small pool, so versions repeat and go back and forth
+    gens = Generations(rng)
     ops = []
     offered = {}                       # key -> versions offered so far (generator-side, for targeted deletes)
     for _ in range(length):
@@ -575,7 +644,7 @@ def rand_history(rng, length, nkeys):
         if x < 0.55:
             ver = rng.choice(vers)
             sys = rng.choice([None, None, {"owner": name}, {}])
-            ops.append(["offer", cls, rand_meta(rng, name, ver), rand_spec(rng), sys])
+            ops.append(["offer", cls, rand_meta(rng, name, ver, gens.next((cls, name))), rand_spec(rng), sys])
             offered.setdefault((cls, name), []).append(ver)
         elif x < 0.72:
             seen = offered.get((cls, name), [])
@@ -592,7 +661,7 @@ def rand_history(rng, length, nkeys):
                 ver = ""
             ops.append(["delete", cls, name, ver])
         elif x < 0.80:
-            ops.append(["delres", cls, rand_meta(rng, name, rng.choice(vers))])
+            ops.append(["delres", cls, rand_meta(rng, name, rng.choice(vers), gens.next((cls, name)))])
         elif x < 0.92:
             ops.append(["lookup", cls, name])
         else:
@@ -641,6 +710,228 @@ def handle(ctx: Ctx, ops, cases, terms, bucket):
     terms.append(to_coq(trace))
 
 
+# ---- concurrent operations (oracle only) ----------------------------------------------
+
+def run_concurrent(case):
+    """`setup` ops run one after the other; then every `[delay, op]` of `round` is started as its own task after
+    `delay` loop turns, so that operations (and the background re-preparers, whose preparers suspend for
+    spec["sleep"] turns) overlap.  Returns the invocation order of starts/finishes, the final public lookups and
+    the specs the preparer invocations were given."""
+    import vloop
+
+    async def go():
+        ops_all = list(case["setup"]) + [op for _, op in case["round"]]
+        r = Runner(universe(ops_all))
+        try:
+            for op in case["setup"]:
+                await r.apply(op)
+            seq = [0]
+            events = [None] * len(case["round"])
+
+            async def launch(i, delay, op):
+                for _ in range(delay):
+                    await asyncio.sleep(0)
+                seq[0] += 1
+                start = seq[0]
+                res, _ = await r.apply(op)
+                seq[0] += 1
+                events[i] = (start, seq[0], res)
+
+            # Every write to the cache dict is watched: a result made by a BACKGROUND re-preparer may only ever
+            # replace the result of the same version; if it is stored under another version than the key holds at
+            # that moment (or for a key that is absent), a re-prepare wrote back a stale entry.  (Best effort: if
+            # the private dict cannot be wrapped, nothing is attributed.)
+            stale = []
+            saved_dict = None
+            try:
+                raw = getattr(r.cache, "__CACHE")
+
+                class Watched(type(raw)):
+                    def __setitem__(self, key, entry):
+                        try:
+                            ident = r.ident(entry.resource)
+                            old = self.get(key)
+                            if (ident[0] in ("ok", "err") and ident[1] < len(r.background) and r.background[ident[1]]
+                                    and (old is None or old.resource_version != entry.resource_version)):
+                                stale.append([str(getattr(key, "name", key)),
+                                              None if old is None else old.resource_version, entry.resource_version])
+                        except Exception:  # noqa: BLE001
+                            pass
+                        super().__setitem__(key, entry)
+
+                if isinstance(raw, dict):
+                    saved_dict = raw
+                    setattr(r.cache, "__CACHE", Watched(raw))
+            except Exception:  # noqa: BLE001
+                saved_dict = None
+            try:
+                await asyncio.gather(*[launch(i, d, op) for i, (d, op) in enumerate(case["round"])])
+                for _ in range(60):                     # let every background re-preparer finish
+                    await asyncio.sleep(0)
+                final = {}
+                for cls in range(KINDS):
+                    for name in r.names:
+                        sd = r.cache.get_resource_system_data_from_cache(KCLS[cls], fresh(name))
+                        if sd is not None:
+                            final[(cls, name)] = (sd.resource_version, r.ident(sd.resource))
+            finally:
+                if saved_dict is not None:
+                    cur = getattr(r.cache, "__CACHE")
+                    saved_dict.clear()
+                    saved_dict.update(cur)
+                    setattr(r.cache, "__CACHE", saved_dict)
+            return events, final, list(r.spec_given), [list(x) for x in r.log], stale
+        finally:
+            r.close()
+
+    import logging
+    lg = logging.getLogger("koreo.cache")
+    was, lg.disabled = lg.disabled, True
+    try:
+        with contextlib.redirect_stdout(io.StringIO()):
+            return vloop.run(go())[0]
+    finally:
+        lg.disabled = was
+
+
+def ref_apply(state, op):
+    """the plain-map specification (key -> (version, offered spec)) for one operation of a concurrent stream"""
+    k = op[0]
+    if k == "offer":
+        key, ver = (op[1], op[2]["name"]), op[2]["resourceVersion"]
+        if not (key in state and state[key][0] == ver):
+            state[key] = (ver, op[3])
+    elif k == "delete":
+        key = (op[1], op[2])
+        if key in state and (op[3] is None or op[3] == state[key][0]):
+            del state[key]
+
+
+def strip_spec(spec):
+    return {k: v for k, v in spec.items() if k != "scribble"} if isinstance(spec, dict) else spec
+
+
+def oracle_concurrent(case, events, final, spec_given, log, stale=()):
+    """The final cache contents must be what SOME sequential order of the round's operations gives, among the
+    orders that respect real time (an operation that finished before another started comes first).  Compared per
+    key: present?, version, and the spec the cached result was prepared from."""
+    base = {}
+    for op in case["setup"]:
+        ref_apply(base, op)
+    n = len(case["round"])
+    allowed = []
+    for perm in itertools.permutations(range(n)):
+        pos = {i: p for p, i in enumerate(perm)}
+        if any(events[i][1] < events[j][0] and pos[i] > pos[j] for i in range(n) for j in range(n) if i != j):
+            continue
+        st = dict(base)
+        for i in perm:
+            ref_apply(st, case["round"][i][1])
+        if st not in allowed:
+            allowed.append(st)
+    seen = {}
+    for key, (ver, ident) in final.items():
+        spec = None
+        if ident[0] in ("ok", "err") and ident[1] < len(spec_given) and tuple(log[ident[1]]) == key:
+            spec = strip_spec(spec_given[ident[1]])
+        seen[key] = (ver, spec)
+    if seen in allowed:
+        return None
+    # which clause is hurt?  (only to name the failure; any difference is a failure)
+    what = "final cache contents are not the outcome of any sequential order of the overlapping operations"
+    sig = "concurrent: final state not sequentially explainable"
+    for key in set(seen) | {k for st in allowed for k in st}:
+        vers = {st[key][0] if key in st else None for st in allowed}
+        got = seen[key][0] if key in seen else None
+        if got not in vers:
+            if False:
+                pass
+            elif got is None:
+                sig = "concurrent: newer entry removed"
+            elif None in vers and len(vers) == 1:
+                sig = "concurrent: deleted entry came back"
+            else:
+                sig = "concurrent: entry holds a version no order explains"
+            what = (f"key {key}: the cache ends with version {got}; every sequential order of the overlapping "
+                    f"operations ends with {sorted(map(str, vers))}")
+            break
+    else:
+        sig = "concurrent: result not prepared from the cached version's spec"
+    if stale:
+        # root cause seen while it happened: attribute the wrong final state to it
+        sig = "concurrent: a background re-prepare wrote its stale entry over a newer offered version"
+        k0, was, now = stale[0]
+        what = (f"{k0} had version {was}; then a background re-preparer stored its result under version "
+                f"{now} (the entry it had read before awaiting the preparer); " + what)
+    return (sig, what, {"final": {str(k): v for k, v in seen.items()},
+                        "allowed": [{str(k): v for k, v in st.items()} for st in allowed]})
+
+
+def handle_concurrent(ctx: Ctx, case, bucket):
+    out = run_concurrent(case)
+    bad = oracle_concurrent(case, *out)
+    if bad:
+        sig = bad[0]
+        seen = ctx.__dict__.setdefault("_c15_sigs", {})
+        seen[sig] = seen.get(sig, 0) + 1
+        small = case
+        if seen[sig] == 1:
+            def still_round(xs):
+                c = dict(case, round=xs)
+                b = oracle_concurrent(c, *run_concurrent(c))
+                return bool(b) and b[0] == sig
+            small = dict(case, round=shrink_list(case["round"], still_round))
+
+            def still_setup(xs):
+                c = dict(small, setup=xs)
+                b = oracle_concurrent(c, *run_concurrent(c))
+                return bool(b) and b[0] == sig
+            small = dict(small, setup=shrink_list(small["setup"], still_setup))
+            bad = oracle_concurrent(small, *run_concurrent(small)) or bad
+        ctx.fail(Failure(signature=sig, what=bad[1], case=small, observed=bad[2]))
+    ctx.note_case(case, nontrivial=len(case["round"]) >= 2)
+    ctx.count(f"hist:{bucket}")
+
+
+def conc_case(delays, sleeps, dep_first=True, guarded=True, vers=("17", "170")):
+    """a resource x that watches d; then, overlapping: d changes (x's re-preparer starts a suspending prepare),
+    x is deleted naming its old version, and x is offered at a new version"""
+    x, d = NAMES[0], NAMES[2]
+    v1, v2 = vers
+    setup = [["offer", 0, meta(d, v1), {"mode": "ok", "tag": 1}, None],
+             ["offer", 0, meta(x, v1), {"mode": "ok", "tag": 2, "deps": [[0, d]], "sleep": sleeps[0]}, None],
+             ["yield", 12]]
+    rnd = [[delays[0], ["offer", 0, meta(d, v2), {"mode": "ok", "tag": 3}, None]],
+           [delays[1], ["delete", 0, x, v1 if guarded else None]],
+           [delays[2], ["offer", 0, meta(x, v2), {"mode": "ok", "tag": 4, "deps": [[0, d]], "sleep": sleeps[1]}, None]]]
+    return {"conc": True, "setup": setup, "round": rnd}
+
+
+def rand_conc_case(rng):
+    names = NAMES
+    vers = rng.sample(ALL_VERSIONS, 3)
+    gens = Generations(rng)
+    tag = [0]
+
+    def offer(name, deps_ok=True):
+        tag[0] += 1
+        spec = {"mode": rng.choice(["ok", "ok", "ok", "permfail"]), "tag": tag[0], "sleep": rng.choice([0, 0, 1, 2, 4])}
+        if deps_ok and name != names[2] and rng.random() < 0.7:
+            spec["deps"] = [[0, names[2]]]            # only the last name is watched: no cycles in this stream
+        return ["offer", 0, k8s_extras(rng, meta(name, rng.choice(vers)), gens.next((0, name))), spec, None]
+
+    def anyop():
+        name = rng.choice(names)
+        x = rng.random()
+        if x < 0.6:
+            return offer(name)
+        return ["delete", 0, name, rng.choice([None] + vers)]
+
+    setup = [offer(n) for n in rng.sample(names, rng.choice([1, 2, 3]))] + [["yield", rng.choice([0, 3, 12])]]
+    rnd = [[rng.choice([0, 0, 1, 2, 3, 5, 8]), anyop()] for _ in range(rng.choice([2, 3, 3, 4]))]
+    return {"conc": True, "setup": setup, "round": rnd}
+
+
 def handle_deps(ctx: Ctx, ops, bucket):
     """a history whose preparers declare watched resources: judged by the oracle only (the background
     re-prepare machinery is modelled by C16, not by Cache.v)"""
@@ -669,6 +960,7 @@ def rand_deps_history(rng, length):
     lookups, and `yield`s that let the background re-preparers run; every offered spec is unique (tag)"""
     names = NAMES[:rng.choice([2, 3])]
     vers = rng.sample(ALL_VERSIONS, 3)
+    gens = Generations(rng)
     ops, tag = [], 0
     for _ in range(length):
         name = rng.choice(names)
@@ -686,7 +978,7 @@ def rand_deps_history(rng, length):
                 spec["deps"] = [[0, d] for d in deps]
             elif y < 0.85:
                 spec["deps"] = []
-            ops.append(["offer", 0, meta(name, rng.choice(vers)), spec, None])
+            ops.append(["offer", 0, k8s_extras(rng, meta(name, rng.choice(vers)), gens.next((0, name))), spec, None])
         elif x < 0.68:
             ops.append(["delete", 0, name, rng.choice([None, None] + vers)])
         elif x < 0.80:
@@ -700,10 +992,19 @@ def rand_deps_history(rng, length):
 def run(ctx: Ctx):
     cases, terms = [], []
     for c in corpus_cases("C15"):
-        if c.get("deps"):
+        if c.get("conc"):
+            handle_concurrent(ctx, c, "corpus-concurrent")
+        elif c.get("deps"):
             handle_deps(ctx, c["ops"], "corpus-deps")
         else:
             handle(ctx, c["ops"], cases, terms, "corpus")
+    # concurrent operations (oracle only): overlapping offer / delete / dependency change
+    grid = [0, 1, 2, 3, 5] if ctx.quick() else [0, 1, 2, 3, 4, 5, 7]
+    for delays in itertools.product(grid, repeat=3):
+        for sleeps in ([2, 1], [4, 0]) if ctx.quick() else ([2, 1], [4, 0], [1, 3], [6, 2]):
+            handle_concurrent(ctx, conc_case(delays, sleeps, guarded=(sum(delays) % 4 != 3)), "concurrent-grid")
+    for _ in range(400 if ctx.quick() else 6000):
+        handle_concurrent(ctx, rand_conc_case(ctx.rng), "concurrent-random")
     # dependency streams (oracle only)
     for _ in range(600 if ctx.quick() else 8000):
         handle_deps(ctx, rand_deps_history(ctx.rng, ctx.rng.choice([4, 6, 9, 12])), "random-deps")
@@ -722,6 +1023,12 @@ def run(ctx: Ctx):
 
 def replay(ctx: Ctx, data):
     case = data["case"] if "case" in data else data
+    if case.get("conc"):
+        bad = oracle_concurrent(case, *run_concurrent(case))
+        if bad:
+            ctx.fail(Failure(signature=bad[0], what=bad[1], case=case, observed=bad[2]))
+        ctx.note_case(case, True)
+        return
     deps = bool(case.get("deps"))
     trace, contract, looks, tasks, given = run_ops(case["ops"], deps=deps)
     bad = oracle(trace, contract, looks, tasks, given, deps=deps)
